@@ -7,7 +7,8 @@ from vf import snapshot, treegen
 from vf.runner import Violation, hyp_search
 
 ID = "C12"
-RULE = ("Arbitrary trees with every field populated and namespace dictionaries shared the way the API shares them; "
+RULE = ("Arbitrary trees with every field populated and namespace dictionaries shared the way the API shares them "
+        "(children may lack a prefix their parent declares); "
         "copy() taken at the root or at any inner node; then one edit (content / tail / prefix / name, add / change / "
         "remove an attribute or extra, add_namespace / remove_namespace, add / remove / shift a child, remove_children) "
         "applied to any node of the copy or of the original tree.  Oracle: value snapshots equal; ids fresh, pairwise "
